@@ -49,6 +49,19 @@ func innerVal(a int32, s string) reflect.Value {
 	return v
 }
 
+// inner2 has the kinds of inner's fields the other way round (both are anonymous structs: they share their name)
+var inner2 = pgen.MsgE(pgen.F(sc(pgen.String), pgen.Plain), pgen.F(sc(pgen.Int32), pgen.Plain), pgen.F(sc(pgen.Int64), pgen.Plain))
+
+func mapOfInner(e pgen.Elem, set func(v reflect.Value)) func() reflect.Value {
+	return func() reflect.Value {
+		m := reflect.MakeMap(reflect.MapOf(reflect.TypeOf(""), e.Msg.Type))
+		v := reflect.New(e.Msg.Type).Elem()
+		set(v)
+		m.SetMapIndex(reflect.ValueOf("k"), v)
+		return m
+	}
+}
+
 var specs = []fieldSpec{
 	{"int32", pgen.F(sc(pgen.Int32), pgen.Plain), []tmpl{{"7", val(int32(7))}, {"-1", val(int32(-1))}, {"2147483647", val(int32(math.MaxInt32))}}, &bitor{proto.BitOr[int32]{}, 0x48}},
 	{"int32/or-uint64", pgen.F(sc(pgen.Int32), pgen.Plain), []tmpl{{"7", val(int32(7))}}, &bitor{proto.BitOr[uint64]{}, 1 << 31}},
@@ -89,20 +102,32 @@ var specs = []fieldSpec{
 	{"map[string]int64", pgen.MapF(pgen.String, sc(pgen.Int64)), []tmpl{{`{"k":5}`, val(map[string]int64{"k": 5})}, {`{"k":-3,"l":6}`, val(map[string]int64{"k": -3, "l": 6})}}, nil},
 	{"map[string]sint64", pgen.Field{Elem: enc(pgen.Int64, "zigzag64"), Wrap: pgen.MapVal, Key: pgen.String}, []tmpl{{`{"k":5}`, val(map[string]int64{"k": 5})}, {`{"k":-3}`, val(map[string]int64{"k": -3})}}, nil},
 	{"map[int32]int32", pgen.MapF(pgen.Int32, sc(pgen.Int32)), []tmpl{{`{"3":7}`, val(map[int32]int32{3: 7})}, {`{"-2":-5}`, val(map[int32]int32{-2: -5})}}, nil},
+	{"map[string]nested", pgen.MapF(pgen.String, inner), []tmpl{{`{"k":{"F0":11,"F1":"in"}}`, mapOfInner(inner, func(v reflect.Value) { v.Field(0).SetInt(11); v.Field(1).SetString("in") })}}, nil},
+	{"map[string]nested2", pgen.MapF(pgen.String, inner2), []tmpl{{`{"k":{"F0":"s","F1":7,"F2":9}}`, mapOfInner(inner2, func(v reflect.Value) { v.Field(0).SetString("s"); v.Field(1).SetInt(7); v.Field(2).SetInt(9) })}}, nil},
 	{"[]sint32", pgen.F(enc(pgen.Int32, "zigzag32"), pgen.Slice), []tmpl{{"[4,-5]", val([]int32{4, -5})}, {"[-1]", val([]int32{-1})}}, nil},
 }
 
 var numberBases = []int{1, 14, 15, 30, 31, 62, 63, 64, 254, 255, 256, 299, 2046, 2047, 70000}
 
 // build makes the message type from chosen specs with numbers base, base+1, ...
-func build(idx []int, base int) *pgen.Msg {
+// build: order 0 numbers the fields base, base+1, ... in declaration order; 1 in descending order; 2 gives the
+// first declared field the highest number (the last declared field then never carries it).
+func build(idx []int, base int, order int) *pgen.Msg {
 	m := &pgen.Msg{}
 	var nums []int
+	n := len(idx)
 	for i, k := range idx {
 		f := specs[k].field
 		f.Name = fmt.Sprintf("F%d", i)
 		m.Fields = append(m.Fields, f)
-		nums = append(nums, base+i)
+		switch order {
+		case 1:
+			nums = append(nums, base+n-1-i)
+		case 2:
+			nums = append(nums, base+(i+n-1)%n)
+		default:
+			nums = append(nums, base+i)
+		}
 	}
 	m.AssignTagged(nums)
 	return m.Build()
@@ -205,7 +230,7 @@ func templates(c *explore.Ctx) {
 			idx[i] = c.Choose(8) * 3 % len(specs) // a spread subset for the companions
 		}
 	}
-	templatesBody(c, idx, numberBases)
+	templatesBody(c, idx, numberBases, 1)
 }
 
 func specIndex(name string) int {
@@ -229,6 +254,8 @@ func siblingFields(c *explore.Ctx) {
 		{"int32", "sint32", "sfixed32"},
 		{"sfixed64", "int64", "sint64"},
 		{"[]int32", "[]sint32"},
+		{"map[string]nested", "map[string]nested2"},
+		{"map[string]nested2", "int32", "map[string]nested"},
 		{"[]sint32", "int32", "[]int32"},
 	}
 	g := groups[c.Choose(len(groups))]
@@ -236,13 +263,17 @@ func siblingFields(c *explore.Ctx) {
 	for i, n := range g {
 		idx[i] = specIndex(n)
 	}
-	templatesBody(c, idx, []int{1, 2046})
+	templatesBody(c, idx, []int{1, 2046}, 3)
 }
 
-func templatesBody(c *explore.Ctx, idx []int, bases []int) {
+func templatesBody(c *explore.Ctx, idx []int, bases []int, orders int) {
 	nf := len(idx)
 	base := bases[c.Deviate(len(bases))]
-	m := build(idx, base)
+	order := 0
+	if orders > 1 {
+		order = c.Choose(orders)
+	}
+	m := build(idx, base, order)
 	// input value: every field absent / present / present with another value
 	v := reflect.New(m.Type).Elem()
 	for i := range idx {
@@ -803,7 +834,7 @@ func Spec() *explore.Spec {
 				return 1
 			},
 				Doc: "message types of 1-3 fields (21 field shapes: every integer kind, sint, bool, string, bytes, floats, pointer, nested, pointer-to-nested, repeated scalar/string/nested, string-keyed maps) x 15 field-number bases (1..70000) x input value per field {absent, present, other} x template per field {not mentioned, each template value, BitOr rule} x input form {canonical, unknown fields interleaved, scalars present twice, empty} x {empty out, out with a prefix}"},
-			{Name: "sibling-fields", ShardDepth: 2, Body: siblingFields, Bound: func(string) int { return 1 }, Doc: "9 message types whose fields share a Go type but not a wire encoding (map[string]int64 next to a map with sint64 values, map[int32]int32 next to sint32 keys / sfixed32 values, int32 / sint32 / sfixed32, []int32 / []sint32, in both orders, with a third field) x 2 field-number bases x the templates family's input values, template subsets and input forms"},
+			{Name: "sibling-fields", ShardDepth: 2, Body: siblingFields, Bound: func(string) int { return 1 }, Doc: "11 message types whose fields share a Go type but not a wire encoding, or are maps of different messages of the same (empty) name (map[string]int64 next to a map with sint64 values, map[int32]int32 next to sint32 keys / sfixed32 values, int32 / sint32 / sfixed32, []int32 / []sint32, in both orders, with a third field) x 2 field-number bases x 3 numberings (ascending, descending, the first declared field carrying the highest number) x the templates family's input values, template subsets and input forms"},
 			{Name: "manual", ShardDepth: 2, Body: manual, Doc: "hand-assembled MessageRewriter / MultiRewriter for field numbers 1..2048 x replacement kinds x {absent, once, twice} : output compared byte-for-byte"},
 			{Name: "manual-pairs", ShardDepth: 2, Body: manualPairs, Doc: "rewriters templating two fields (12 number pairs incl. 32 and 64 apart within and across 64-blocks) x each field absent / once / twice x input order x leading untemplated field; applied three times with a nil output buffer: byte-exact outputs, and an earlier output is not changed by a later application"},
 			{Name: "helpers", ShardDepth: 1, Body: helpers, Doc: "FieldNumber.{Bool,Int*,Uint*,Fixed*,Float*,String,Bytes,Value} and Append* on boundary values x 11 field numbers vs protowire, then Parse"},
